@@ -192,10 +192,17 @@ static Scn gen_passthrough() {
         body.clear(); int n = rcx::range(6, 300); static const std::string al = "abcdefghijklmnopqrstuvwxyz <>/=\"'0123456789\r\n"; for (int i = 0; i < n; i++) body += al[rcx::range(0, (int)al.size() - 1)];
         if (zlib_rejects(body, -15) && zlib_rejects(body, 15 + 32) && zlib_rejects(body, 15)) break; body.clear();
     }
+    if (rcx::chance(1, 3)) { // a well-formed gzip HEADER (optional fields included) followed by bytes that are no deflate stream: the restart probe skips such a header, the pass-through must not
+        int flg = rcx::range(1, 15) << 1; std::string g = std::string("\x1f\x8b\x08", 3) + (char)flg + std::string("\0\0\0\0\0\x03", 6);
+        if (flg & 4) { g += std::string("\x04\0", 2) + "ABCD"; } if (flg & 8) g += std::string("name.txt\0", 9); if (flg & 16) g += std::string("a comment\0", 10); if (flg & 2) g += std::string("\xff\xff", 2);
+        static const unsigned char GB[] = {0xf7, 0xff, 0xfe, 0xf6}; int n = rcx::range(4, 120); for (int i = 0; i < n; i++) g += (char)GB[rcx::range(0, 3)]; // BTYPE=11 (reserved): no raw deflate block can start here
+        // wherever libhtp's own header probe makes the restart begin, the bytes must be rejected by zlib without output: checked for every suffix behind the fixed part of the header
+        bool ok = zlib_rejects(g, 15 + 32) && zlib_rejects(g, 15); ok = ok && zlib_rejects(g, -15); for (size_t off = 10; ok && off < g.size(); off++) if (!zlib_rejects(g.substr(off), -15)) ok = false; // (a probe never stops inside the 10 fixed header bytes)
+        if (ok) body = g; }
     if (body.empty()) body = "this is not compressed data at all, just text"; // rejected by raw, zlib and gzip inflate
     int kind = rcx::range(0, 2); s.expect = body;
     build_streams(s, token_of(kind), body, rcx::range(0, s.dir == 0 ? 2 : 1));
-    s.label = std::string("plain_text_as_") + KN[kind] + (s.dir ? "/request" : "/response");
+    s.label = std::string(body.size() > 2 && body[0] == '\x1f' ? "gzip_header_then_garbage_as_" : "plain_text_as_") + KN[kind] + (s.dir ? "/request" : "/response");
     return s;
 }
 static Scn gen_bomb(bool thorough) {
